@@ -89,7 +89,11 @@ Definition run_cases (g gfh : Z) (cs : list ccase) : list (Z * Z * Z * Z) :=
    skind 1: crash image of the filter header state reset that the assertion
             [sassert] triggers on the state after [sprefix];
    skind 2: no crash: the state after [sprefix] opened with an assertion that
-            must NOT trigger.
+            must NOT trigger;
+   skind 3: crash image of the first start through NewChainService (the four
+            steps first_steps_b ++ first_steps_f; [skinds] is the header-store
+            sub-sequence of the steps the real constructor performed), reopened
+            through NewChainService.
    The image is reopened with the assertion ([swith]) or without; [sopened]
    says whether the real constructors succeeded; [spost] is the dump and the
    follow-up append on the reopened stores. *)
@@ -118,9 +122,10 @@ Fixpoint judge (als : list alog) (i0 : Z) (tr : list (op * obs)) : option Z :=
     end
   end.
 
-(* root-cause code: 41 first start, 42 state reset, 43 assertion that must not trigger *)
+(* root-cause code: 41 first start, 42 state reset, 43 assertion that must not
+   trigger, 44 first start through NewChainService *)
 Definition stag (c : scase) : Z :=
-  if skind c =? 0 then 41 else if skind c =? 1 then 42 else 43.
+  if skind c =? 0 then 41 else if skind c =? 1 then 42 else if skind c =? 3 then 44 else 43.
 
 Definition sverdict (g gfh : Z) (c : scase) : list (Z * Z * Z * Z) :=
   match init g gfh with
@@ -135,11 +140,13 @@ Definition sverdict (g gfh : Z) (c : scase) : list (Z * Z * Z * Z) :=
      | None =>
        let img :=
          if skind c =? 0 then first_start_crash g gfh (sfilter c) k (storn c)
+         else if skind c =? 3 then first_start_crash_cs g gfh k (storn c)
          else if skind c =? 1 then
            (if assertion_resets (ff s) (sassert c) then reset_crash g gfh s k (storn c) else None)
          else (if assertion_resets (ff s) (sassert c) then None else Some s) in
        let ds :=
          if skind c =? 0 then (if sfilter c then first_steps_f g gfh else first_steps_b g)
+         else if skind c =? 3 then first_steps_b g ++ first_steps_f g gfh
          else if skind c =? 1 then reset_steps gfh g else [] in
        (if list_eqb (map step_kind ds) (skinds c) then [] else [(sid c, 1, np, 0)]) ++
        match img with
